@@ -261,7 +261,10 @@ class C06(Prop):
                 subseq.append((fh, min(bpl, 2**32 - 1), rpl))
         kl = kg.many(nkeys)
         keys = [(k, rng.randrange(nfiles), off(rng), rng.choice([0, 0, off(rng)]) if rng.random() < 0.3 else off(rng), off(rng)) for k in kl]
-        rng.shuffle(keys)
+        order = rng.random()
+        if order < 0.1: keys.sort()                      # already sorted insertion order
+        elif order < 0.2: keys.sort(reverse=True)        # reverse sorted
+        else: rng.shuffle(keys)
         al = kg.many(nalias) if keys else []
         aliases = [(a, rng.choice(keys)[0]) for a in al]
         ops = []
